@@ -41,6 +41,12 @@ def cfg_etree(maxnodes, alphabet, export, checkprop, defects):
             "CONSTANT KnownDefects = %s\n" % (maxnodes, alphabet, b(export), b(checkprop), dset(defects)))
 
 
+def cfg_sched(maxnodes, alphabet, maxagain):
+    return ("INIT Init2\nNEXT Next2\nCHECK_DEADLOCK FALSE\nINVARIANT ThmScheduleFree\n"
+            'CONSTANT MaxNodes = %d\nCONSTANT Alphabet = "%s"\nCONSTANT Export = FALSE\nCONSTANT CheckProperty = TRUE\n'
+            "CONSTANT MaxAgain = %d\nCONSTANT KnownDefects = {}\n" % (maxnodes, alphabet, maxagain))
+
+
 def cfg_lint(maxlen, export, defects):
     return ("INIT Init\nNEXT Next\nCHECK_DEADLOCK FALSE\nINVARIANT ThmLintSound\nINVARIANT ThmLintComplete\n"
             "INVARIANT ThmExport\nCONSTANT MaxLen = %d\nCONSTANT Export = %s\nCONSTANT KnownDefects = %s\n"
@@ -184,6 +190,11 @@ def model_checking(ctx, listed):
                           {"tlc": r.stdout_path})
             return False
 
+    r = ctx.tlc("MC_WalkSchedule", cfg_sched(3, "shape" if q else "narrow", 1), "mc-walk-schedule")
+    if r.violated:
+        ctx.violation("theorem %s fails (MC_WalkSchedule)" % r.violated, {"tlc": r.stdout_path})
+        return False
+
     def desc_shape(rec, bad):
         if nontrivial_stream(rec["out"]):
             ctx.nontriv(hash(json.dumps(rec["out"])))
@@ -246,22 +257,27 @@ def real_concat(raw):
     return [ptok(t) for t in concatenateCharacterTokens(iter([dict(t) for t in raw]))]
 
 
-def record_dom(node, sub):
-    raw, err = _safe(wk.walk_dom_raw, node)
+def record_dom(node, sub, raw=None):
+    err = None
+    if raw is None:
+        raw, err = _safe(wk.walk_dom_raw, node)
     if err:
         return None, err
     return {"sub": proj.flatten(sub), "stream": [ptok(t) for t in raw], "lint": real_lint(raw), "other": [],
             "hasOther": False, "concat": real_concat(raw)}, None
 
 
-def record_etree(start_el, shape_root, other=None, same_tree=True):
+def record_etree(start_el, shape_root, other=None, same_tree=True, walked=None):
     """trace of the real etree walker started at start_el; the shape is taken from shape_root (an ancestor-or-self);
     other = the dom walker's stream for the same document and start node (when both builders built the same tree)"""
-    E, index = proj.etree_shape(shape_root)
-    res, err = _safe(wk.walk_etree_raw, start_el, index)
-    if err:
-        return None, err
-    raw, evs = res
+    if walked is None:
+        E, index = proj.etree_shape(shape_root)
+        res, err = _safe(wk.walk_etree_raw, start_el, index)
+        if err:
+            return None, err
+        raw, evs = res
+    else:
+        E, index, raw, evs = walked
     return {"E": E, "start": index[id(start_el)], "evs": evs, "stream": [ptok(t) for t in raw], "lint": real_lint(raw),
             "other": other if other is not None else [], "hasOther": other is not None, "sameTree": bool(same_tree),
             "concat": real_concat(raw),
@@ -372,6 +388,79 @@ def handbuilt_traces(ctx, n, deep):
     return dom_tr, dmeta, et_tr, emeta
 
 
+def sched_case(kind, name, k, A, B):
+    """one schedule run on the trees of documents A and B (walked from their roots); returns (trace records, error)"""
+    def mk(doc):
+        d, frag, nsel, cont = doc
+        eroot, droot = wk.parse_both(d, frag, nsel, cont)
+        if kind == "etree":
+            E, index = proj.etree_shape(eroot)
+            return wk.etree_walker(eroot, index), (eroot, E, index)
+        return wk.dom_walker(droot), droot
+    wa, xa = mk(A)
+    wb, xb = mk(B)
+    extra = {id(wa): xa, id(wb): xb}
+    res, err = _safe(wk.sched_run, name, wa, wb, k)
+    if err:
+        return None, err
+    out = []
+    for w, raw in res:
+        x = extra[id(w)]
+        if kind == "etree":
+            tr, _ = record_etree(x[0], x[0], walked=(x[1], x[2], raw, list(w.events)))
+        else:
+            tr, _ = record_dom(x, proj.proj_dom(x, merge=False), raw=raw)
+        out.append(tr)
+    return out, None
+
+
+def schedule_traces(ctx, n):
+    """the real walkers under other schedules than one solitary complete walk: two live walks interleaved (lockstep,
+    out of phase, one walk started and dropped inside the other) and the same walker object iterated again after an
+    abandoned iteration.  Every resulting stream is validated like a solitary walk (theorem: MC_WalkSchedule)."""
+    docs = [d for d in wk.documents(ctx.rng, 3 * n) if wk.parse_both(*d) is not None]
+    docs = [d for d in docs if proj.size(proj.proj_dom(wk.parse_both(*d)[1], merge=False)) <= 80][: 2 * n]
+    dom_tr, et_tr, dmeta, emeta = [], [], [], []
+    for i in range(len(docs) // 2):
+        A, B = docs[i], docs[len(docs) - 1 - i]
+        for kind in ("etree", "dom"):
+            name = wk.SCHEDULES[(i + (kind == "dom")) % len(wk.SCHEDULES)]
+            k = 1 + ctx.rng.randrange(6)
+            meta = {"kind": "sched-" + kind, "schedule": name, "k": k, "A": list(A), "B": list(B)}
+            trs, err = sched_case(kind, name, k, A, B)
+            if err:
+                ctx.violation("%s walker raised under schedule %s: %s" % (kind, name, err), meta)
+                continue
+            for tr in trs:
+                (et_tr if kind == "etree" else dom_tr).append(tr)
+                (emeta if kind == "etree" else dmeta).append(meta)
+    return dom_tr, dmeta, et_tr, emeta
+
+
+def generic_schedules(ctx, n):
+    """harness/streams.py on both walkers: source = [abstract tree]; one-shot sources, lockstep, abandoned iteration,
+    the same walker object re-iterated"""
+    from html5lib import treewalkers
+    from .. import streams
+    trees = [[mktree.random_tree(ctx.rng, max_nodes=ctx.rng.choice([8, 20]))] for _ in range(n)]
+
+    def maker(kind):
+        W = treewalkers.getTreeWalker(kind)
+
+        def build(src):
+            t = list(src)[0]
+            return W(mktree.build_etree(t) if kind == "etree" else mktree.build_dom(t)[0])
+
+        def make(src):
+            return src if hasattr(src, "getNodeDetails") else build(src)
+        return make, build
+    for kind in ("etree", "dom"):
+        make, build = maker(kind)
+        streams.check(ctx, kind + " walker", make, trees, key=lambda out: [ptok(t) for t in out], reiterable=build,
+                      case=lambda i: {"tree": trees[i][0]})
+        ctx.traces += len(trees)
+
+
 def judge(ctx, module, traces, metas, tag, listed, kind):
     consts = "CONSTANT KnownDefects = %s\n" % dset(listed)
     idx = {id(t): i for i, t in enumerate(traces)}
@@ -411,6 +500,9 @@ def run(ctx):
         "MC_Lint": "all streams <= %d tokens over 19 good + 5 void-set-dependent + 30 malformed tokens" % (3 if q else 4),
         "traces": "%d parsed documents x {etree fullTree, dom} x <=3 start nodes; %d hand-built trees; deep chains %s; "
                   "trees <= %d nodes" % (500 if q else 4000, 150 if q else 1000, [150] if q else [150, 400], MAX_NODES),
+        "schedules": "MC_WalkSchedule: two iterations in every interleaving + one re-iteration after abandonment on all "
+                     "shapes of <= 3 elements; real walkers: lockstep / shifted / peek / again on %d document pairs, "
+                     "harness.streams on %d hand-built trees" % (60 if q else 400, 40 if q else 200),
         "KnownDefects(code-faithful)": listed}
     ctx.rule = ("MC: all trees / ElementTree shapes / token streams within the bounds, every prefix of a construction a state; "
                 "traces: real walkers on parsed and hand-built trees. non-trivial = stream with an EmptyTag, "
@@ -428,10 +520,13 @@ def run(ctx):
     # ---- code -> spec ----
     dom_tr, dmeta, et_tr, emeta = parsed_traces(ctx, 500 if q else 4000)
     d2, dm2, e2, em2 = handbuilt_traces(ctx, 150 if q else 1000, [150] if q else [150, 400])
-    dom_tr += d2
-    dmeta += dm2
-    et_tr += e2
-    emeta += em2
+    d3, dm3, e3, em3 = schedule_traces(ctx, 60 if q else 400)
+    ctx.notes["schedule_walks"] = {"dom": len(d3), "etree": len(e3)}
+    generic_schedules(ctx, 40 if q else 200)
+    dom_tr += d2 + d3
+    dmeta += dm2 + dm3
+    et_tr += e2 + e3
+    emeta += em2 + em3
     ctx.notes["dom_walks"] = len(dom_tr)
     ctx.notes["etree_walks"] = len(et_tr)
     ctx.notes["cross_walker_pairs"] = sum(1 for t in et_tr if t["hasOther"])
@@ -466,6 +561,17 @@ def replay(case):
     elif kind == "mc-lint":
         if not _replay_lint({"s": c["s"], "ok": c["expected"]}):
             print("VIOLATION property=C11 replay=- (real lint verdict differs from LintOK)")
+            return 1
+    elif kind in ("sched-etree", "sched-dom"):
+        trs, err = sched_case(kind[6:], c["schedule"], c["k"], tuple(c["A"]), tuple(c["B"]))
+        if err:
+            print("VIOLATION property=C11 replay=- (walker raised under schedule: %s)" % err)
+            return 1
+        module = "Trace_EtreeWalker" if kind == "sched-etree" else "Trace_Walker"
+        rej = [r for r in core.validate_traces(ctx, module, trs, "replay", consts=consts)
+               if r[1]["v"] not in ("finding", "accept:nonparsed", "accept:builders-differ")]
+        if rej:
+            print("VIOLATION property=C11 replay=- (%s)" % rej[0][1])
             return 1
     elif kind in ("trace-dom", "trace-etree", "hand-dom", "hand-etree"):
         dom_tr, et_tr = [], []
